@@ -385,6 +385,7 @@ func ruleP13Clauses(p *Prog, r *Report) {
 		"has:BeforeOrEqual=>date>BeforeOrEqual":  "until clause",
 		"has:AfterOrEqual=>date<AfterOrEqual":    "since clause",
 		"has:Tags=>tags-unmatched":               "tag clause",
+		"=>tags-unmatched":                       "tag clause",
 		"has:EntryType=>type-unmatched":          "entry-type clause",
 	}
 	seen := map[string]bool{}
@@ -425,6 +426,11 @@ func ruleP13Clauses(p *Prog, r *Report) {
 			}
 			r.check(okApp, rule, "pass:append", p.instrPos(last), "a passing record is appended once to the result", "an unconditional loop edge that does not append the record to the result")
 		}
+	}
+	if seen["=>tags-unmatched"] {
+		seen["has:Tags=>tags-unmatched"] = true // reducing by an empty tag list passes every record
+	} else {
+		seen["=>tags-unmatched"] = true
 	}
 	for d, name := range want {
 		if !seen[d] {
